@@ -273,6 +273,9 @@ class MemFilestore(VirtualFilestore):
         buf = self.files[k]
         if offset is None:
             offset = 0
+        if offset + len(data) > (1 << 26):
+            # an in-memory store cannot hold what a 64 bit offset may name; it refuses, as a full disk would
+            raise PermissionError(f"{file}: offset {offset} beyond the capacity of the in-memory filestore")
         if offset > len(buf):
             buf.extend(b"\0" * (offset - len(buf)))
         buf[offset : offset + len(data)] = data
